@@ -9,6 +9,7 @@ import Driver.IoFault
 import Driver.Snippet
 import Driver.ScalarRt
 import Driver.Calls
+import Driver.Locs
 /-!
 `modeldrv`: one request per line on stdin (`<area> <op> <args…>`), one answer per line on stdout.
 -/
@@ -27,6 +28,7 @@ def dispatch (line : String) : String :=
   | "snippet" :: rest => Snippet.handle rest
   | "scalarrt" :: rest => ScalarRt.handle rest
   | "calls" :: rest => Calls.handle rest
+  | "locs" :: rest => Locs.handle rest
   | _ => "bad-op"
 
 partial def loop (h : IO.FS.Stream) (out : IO.FS.Stream) : IO Unit := do
